@@ -849,6 +849,18 @@ def main():
                        first=T.auto.auto_of(batch[0][0].tree)[:300])
             stats['distinct'].add(ctx['first'])
             check_render(which, batch, grammar_based, ctx)
+            # C07: records are numbered by sentence with all n-best trees of a sentence under its number - also when the n-best list of ONE sentence is handed over
+            # as it is (a flat list of scored trees): it is one sentence with k trees
+            flat = next((nb for nb in batch if len(nb) >= 2), None)
+            if flat is not None and i % 5 == 0:
+                for f in ('auto', 'xml', 'json', 'conll'):
+                    if f in formats_for(which):
+                        try:
+                            a, b = T.to_string(copy.deepcopy(list(flat)), format=f), T.to_string([copy.deepcopy(list(flat))], format=f)
+                        except Exception:       # noqa (C19's business)
+                            continue
+                        if a != b:
+                            fail('C07', 'the n-best list of one sentence handed over as a flat list is not numbered as one sentence', format=f, **ctx)
             check_codecs(which, copy.deepcopy(batch), grammar_based, ctx)
     for which in ('en', 'ja'):
         T.lang.set_global_language_to(which)
